@@ -93,8 +93,12 @@ func serverURLs(tier string) []string {
 		for _, u := range users {
 			for _, h := range hosts {
 				for _, p := range paths {
-					for _, q := range queries {
+					for qi, q := range queries {
 						out = append(out, s+"://"+u+h+p+q)
+						// ... and with a fragment (a label some configurations attach to a member's URL)
+						if tier == "thorough" || qi < 2 {
+							out = append(out, s+"://"+u+h+p+q+"#blue")
+						}
 					}
 				}
 			}
@@ -122,13 +126,19 @@ type world struct {
 }
 
 func (w *world) upsert(u *url.URL, opts ...roundrobin.ServerOption) {
-	if err := w.f.UpsertServer(u, opts...); err == nil {
+	arg := *u // the balancer is handed the caller's own value, which the caller overwrites once the call has returned
+	err := w.f.UpsertServer(&arg, opts...)
+	lib.ReuseURL(&arg)
+	if err == nil {
 		w.pool[ident(u)] = true
 	}
 }
 
 func (w *world) remove(u *url.URL) {
-	if err := w.f.RemoveServer(u); err == nil {
+	arg := *u
+	err := w.f.RemoveServer(&arg)
+	lib.ReuseURL(&arg)
+	if err == nil {
 		delete(w.pool, ident(u))
 	}
 }
@@ -292,6 +302,9 @@ func urlClass(s string) string {
 	}
 	if u.RawPath != "" || strings.Contains(u.EscapedPath(), "%") {
 		f = append(f, "escaped-path")
+	}
+	if u.Fragment != "" {
+		f = append(f, "fragment")
 	}
 	if strings.ContainsAny(s, ";,|") {
 		f = append(f, "cookie-special-chars")
